@@ -74,8 +74,11 @@ func RunDevOpt(cfg Config, c *mc.Chooser, o DevOpt) (*World, DevStats) {
 			if !inside {
 				// GST: from here on everything is delivered in time, including the root chain's latest height
 				gst = true
+				if cfg.GSTBump && maxRH == cfg.BaseRH {
+					maxRH++
+				}
 				for i, n := range w.Nodes {
-					if w.Live(i) && n.ctl.rh < maxRH {
+					if !w.Down(i) && n.ctl.rh < maxRH {
 						w.BumpRoot(i, maxRH)
 					}
 					limit[i] = roundsUsed(w, i) + o.TailRounds + skewRounds(w, cfg)
@@ -268,16 +271,20 @@ func devLiveness(r *mc.Run, cfgs []NamedConfig, cov map[string]any, only string)
 		n4only    bool
 	}
 	// bounds are iterated: the smaller one is completed before the larger one is attempted
-	bounds := []bound{{1, 2, false}, {2, 2, true}}
+	bounds := []bound{{1, 1, false}, {1, 2, false}, {2, 2, true}}
 	if !r.Quick() {
-		bounds = []bound{{1, 2, false}, {2, 2, false}, {2, 3, false}, {3, 2, true}}
+		bounds = []bound{{1, 1, false}, {1, 2, false}, {2, 1, false}, {2, 2, false}, {2, 3, false}, {3, 2, true}}
 	}
 	var per []map[string]any
 	var total int64
 	for _, bd := range bounds {
 		for _, nc := range cfgs {
-			if nc.Negative || (only != "" && nc.Name != only) || (bd.n4only && len(nc.Cfg.Powers) != 4) {
+			change := nc.Cfg.NextPowers != nil
+			if nc.Negative || (only != "" && nc.Name != only) || (bd.n4only && (len(nc.Cfg.Powers) != 4 || change)) {
 				continue
+			}
+			if bd.devRounds == 1 && !change {
+				continue // a one-round prefix only adds something where the root height moves at GST
 			}
 			if r.Expired() {
 				r.Exhaustive = false
